@@ -181,3 +181,218 @@ def judge(case: Dict[str, Any], status: str, r: Any) -> List[Tuple[str, str]]:
     if r["unresolved"]:
         out.append(("all-unresolved", ", ".join(r["unresolved"][:5])))
     return out
+
+
+# --------------------------------------------------------------------------------------------
+# the model side: wire encoding of a case, driver calls
+# --------------------------------------------------------------------------------------------
+
+EXTRACT_OPS = "ariadne_codegen.contrib.extract_operations.ExtractOperationsPlugin"
+DEFAULT_CLIENTS = {(True, False): ("AsyncBaseClient", "async_base_client.py"), (True, True): ("AsyncBaseClientOpenTelemetry", "async_base_client_open_telemetry.py"),
+                   (False, False): ("BaseClient", "base_client.py"), (False, True): ("BaseClientOpenTelemetry", "base_client_open_telemetry.py")}
+GENERATED_KINDS = ("result", "fragments", "inputs", "enums", "client", "init")
+
+
+def default_clients() -> Dict[Tuple[bool, bool], Tuple[str, str]]:
+    """(async, opentelemetry) -> (class name, file name), read from the tree under test (falls back to the
+    pinned table when the constants moved: the correspondence then shows the difference)"""
+    try:
+        from ariadne_codegen.client_generators import constants as c
+
+        return {(True, False): (c.DEFAULT_ASYNC_BASE_CLIENT_NAME, c.DEFAULT_ASYNC_BASE_CLIENT_PATH.name),
+                (True, True): (c.DEFAULT_ASYNC_BASE_CLIENT_OPEN_TELEMETRY_NAME, c.DEFAULT_ASYNC_BASE_CLIENT_OPEN_TELEMETRY_PATH.name),
+                (False, False): (c.DEFAULT_BASE_CLIENT_NAME, c.DEFAULT_BASE_CLIENT_PATH.name),
+                (False, True): (c.DEFAULT_BASE_CLIENT_OPEN_TELEMETRY_NAME, c.DEFAULT_BASE_CLIENT_OPEN_TELEMETRY_PATH.name)}
+    except (ImportError, AttributeError):
+        return dict(DEFAULT_CLIENTS)
+
+
+def wire_config(cfg: Dict[str, Any]) -> Dict[str, Any]:
+    async_ = cfg.get("async_client", True)
+    otel = cfg.get("opentelemetry_client", False)
+    out: Dict[str, Any] = {
+        "clientName": cfg.get("client_name", "Client"), "clientFile": cfg.get("client_file_name", "client"),
+        "enumsModule": cfg.get("enums_module_name", "enums"), "inputsModule": cfg.get("input_types_module_name", "input_types"),
+        "fragmentsModule": cfg.get("fragments_module_name", "fragments"), "async": async_,
+        "snake": cfg.get("convert_to_snake_case", True), "allInputs": cfg.get("include_all_inputs", True),
+        "allEnums": cfg.get("include_all_enums", True), "customOps": cfg.get("enable_custom_operations", False),
+        "filesToInclude": [Path(f).name for f in cfg.get("files_to_include", [])],
+        "scalars": [{"name": n, "type": d["type"], "serialize": d.get("serialize"), "parse": d.get("parse"), "import": d.get("import")}
+                    for n, d in (cfg.get("scalars") or {}).items()],
+        "extractOps": None,
+    }
+    if cfg.get("base_client_file_path") or cfg.get("base_client_name"):
+        out.update({"baseClientName": cfg.get("base_client_name", ""), "baseClientFile": Path(cfg.get("base_client_file_path", "")).name,
+                    "defaultBaseClient": False})
+    else:
+        name, file = default_clients()[(bool(async_), bool(otel))]
+        out.update({"baseClientName": name, "baseClientFile": file, "defaultBaseClient": True})
+    if EXTRACT_OPS in (cfg.get("plugins") or []):
+        out["extractOps"] = (cfg.get("extract_operations") or {}).get("operations_module_name", "operations")
+    return out
+
+
+def lit_of_ast(node: Any) -> Dict[str, Any]:
+    from graphql import (BooleanValueNode, EnumValueNode, FloatValueNode, IntValueNode, ListValueNode, NullValueNode, ObjectValueNode,
+                         StringValueNode)
+
+    if isinstance(node, IntValueNode):
+        return {"k": "int", "v": int(node.value)}
+    if isinstance(node, FloatValueNode):
+        return {"k": "float", "v": node.value}
+    if isinstance(node, StringValueNode):
+        return {"k": "str", "v": node.value}
+    if isinstance(node, BooleanValueNode):
+        return {"k": "bool", "v": bool(node.value)}
+    if isinstance(node, NullValueNode):
+        return {"k": "null"}
+    if isinstance(node, EnumValueNode):
+        return {"k": "enum", "v": node.value}
+    if isinstance(node, ListValueNode):
+        return {"k": "list", "v": [lit_of_ast(v) for v in node.values]}
+    if isinstance(node, ObjectValueNode):
+        return {"k": "obj", "v": [[f.name.value, lit_of_ast(f.value)] for f in node.fields]}
+    return {"k": "null"}
+
+
+def defs_of_schema(schema: Any) -> List[Dict[str, Any]]:
+    """the type map in the vocabulary of Model/InputGen.lean (input fields with their default literals), in `type_map` order"""
+    from graphql import GraphQLEnumType, GraphQLInputObjectType, GraphQLScalarType
+
+    out: List[Dict[str, Any]] = []
+    for name, t in schema.type_map.items():
+        if name.startswith("__"):
+            continue
+        if isinstance(t, GraphQLEnumType):
+            out.append({"kind": "enum", "name": name, "values": list(t.values.keys())})
+        elif isinstance(t, GraphQLInputObjectType):
+            fs = []
+            for fname, f in t.fields.items():
+                node = f.ast_node
+                fs.append({"name": fname, "type": gqlwire.type_ref(f.type),
+                           "default": lit_of_ast(node.default_value) if node is not None and node.default_value is not None else None})
+            out.append({"kind": "input", "name": name, "fields": fs})
+        elif isinstance(t, GraphQLScalarType):
+            out.append({"kind": "scalar", "name": name})
+        else:
+            out.append({"kind": "composite", "name": name})
+    return out
+
+
+def typeref_of_node(node: Any) -> List[Any]:
+    from graphql import ListTypeNode, NonNullTypeNode
+
+    if isinstance(node, NonNullTypeNode):
+        return ["nonnull", typeref_of_node(node.type)]
+    if isinstance(node, ListTypeNode):
+        return ["list", typeref_of_node(node.type)]
+    return ["named", node.name.value]
+
+
+def model_line(case: Dict[str, Any], op: str) -> Dict[str, Any]:
+    """(configuration, schema, document) in the driver's wire format; only graphql-core reads the inputs"""
+    from graphql import OperationDefinitionNode, build_ast_schema, parse, print_ast
+
+    schema = build_ast_schema(parse(case["sdl"]), assume_valid=True)
+    doc_ast = parse(case["queries"])
+    doc = gqlwire.document_to_json(doc_ast)
+    op_nodes = [d for d in doc_ast.definitions if isinstance(d, OperationDefinitionNode)]
+    for o, node in zip(doc["operations"], op_nodes):
+        o["vars"] = [{"name": v.variable.name.value, "type": typeref_of_node(v.type)} for v in node.variable_definitions or ()]
+        o["text"] = print_ast(node)
+    return {"op": op, "config": wire_config(case.get("config") or {}), "schema": gqlwire.schema_to_json(schema),
+            "fragments": doc["fragments"], "operations": doc["operations"], "defs": defs_of_schema(schema)}
+
+
+def run_model(cases: List[Dict[str, Any]], op: str) -> List[Any]:
+    lines = []
+    for c in cases:
+        try:
+            lines.append(model_line(c, op))
+        except Exception as e:  # the case is not GraphQL at all (hand-written replay input)
+            raise common.Infra(f"case {c.get('seed')} cannot be encoded for the driver: {e!r}")
+    return run_driver(lines)
+
+
+def run_driver(lines: List[Dict[str, Any]]) -> List[Any]:
+    """common.run_driver splits on str.splitlines(), which also cuts at U+2028 etc. inside echoed strings"""
+    import subprocess
+
+    exe = common.LEAN / ".lake/build/bin" / common.driver_name(PROP)
+    if not exe.exists():
+        raise common.Infra(f"driver {exe} not built")
+    out: List[Any] = []
+    for i in range(0, len(lines), 2000):
+        part = lines[i:i + 2000]
+        payload = "".join(json.dumps(l, separators=(",", ":")) + "\n" for l in part).encode()
+        p = subprocess.run([str(exe)], input=payload, capture_output=True, timeout=1800)
+        if p.returncode != 0:
+            raise common.Infra(f"driver exited {p.returncode}: {p.stderr[-300:]!r}")
+        got = [json.loads(l) for l in p.stdout.split(b"\n") if l.strip()]
+        if len(got) != len(part):
+            raise common.Infra(f"driver: {len(part)} lines in, {len(got)} lines out")
+        out += got
+    for line, o in zip(lines, out):
+        if isinstance(o, dict) and "driver_error" in o:
+            raise common.Infra(f"driver rejected {json.dumps(line)[:200]}: {o['driver_error']}")
+    return out
+
+
+def triggers_of(cases: List[Dict[str, Any]]) -> List[List[str]]:
+    return run_model(cases, "triggers") if cases else []
+
+
+# --------------------------------------------------------------------------------------------
+# package-IR correspondence
+# --------------------------------------------------------------------------------------------
+
+
+def compare_package(obs: Dict[str, Any], model: Dict[str, Any]) -> List[Tuple[str, Any, Any]]:
+    """-> [(observation, impl, model)] for every difference between the emitted package and the model's"""
+    diffs: List[Tuple[str, Any, Any]] = []
+    if obs["gen"] != "ok" or "ok" not in model:
+        impl_o = obs["gen"]
+        model_o = "ok" if "ok" in model else model["error"]
+        if impl_o != model_o:
+            diffs.append(("outcome", {"gen": impl_o, "message": obs.get("message", "")[:160]}, {"gen": model_o, "msg": model.get("msg", "")}))
+        elif impl_o != "ok":
+            if model.get("msg") and model["msg"] not in obs.get("message", ""):
+                diffs.append(("refusal-message", obs.get("message", "")[:160], model["msg"]))
+            written = obs.get("dir_after_failure")
+            if sorted(set(model.get("written", []))) != (written or []) or (written is not None) != bool(model.get("mkdir")):
+                diffs.append(("written-before-failure", written, {"written": model.get("written"), "mkdir": model.get("mkdir")}))
+        return diffs
+    pkg = model["ok"]
+    if obs["files"] != pkg["onDisk"]:
+        diffs.append(("directory-listing", obs["files"], pkg["onDisk"]))
+    if obs["reported_files"] != pkg["reported"]:
+        diffs.append(("reported-files", obs["reported_files"], pkg["reported"]))
+    for m in pkg["modules"]:
+        if m["kind"] not in GENERATED_KINDS:
+            continue
+        ir = obs["ir"].get(m["file"])
+        if ir is None:
+            continue  # already reported through the directory listing
+        if "syntax_error" in ir:
+            diffs.append(("module:" + m["file"], ir, "python"))
+            continue
+        mi = sorted({(a, b, c) for a, b, c in m["imports"]})
+        ii = sorted({(a, b, c) for a, b, c in ir["imports"]})
+        if mi != ii:
+            diffs.append((f"imports:{m['kind']}", {"file": m["file"], "only_impl": [x for x in ii if x not in mi], "only_model": [x for x in mi if x not in ii]}, None))
+        ic = [{"name": c["name"], "bases": c["bases"], "fields": c["fields"]} for c in ir["classes"]]
+        if ic != m["classes"]:
+            bad = [(a, b) for a, b in zip(ic, m["classes"]) if a != b][:2]
+            diffs.append((f"classes:{m['kind']}", {"file": m["file"], "names": [c["name"] for c in ic], "first": bad[0][0] if bad else None},
+                          {"names": [c["name"] for c in m["classes"]], "first": bad[0][1] if bad else None}))
+        if m["kind"] == "client":
+            im = [{"name": f["name"], "params": f["params"]} for f in (ir["classes"][-1]["methods"] if ir["classes"] else [])]
+            if im != m["methods"]:
+                diffs.append(("client-methods", im, m["methods"]))
+        if ir["rebuilds"] != m["rebuilds"]:
+            diffs.append((f"rebuilds:{m['kind']}", {"file": m["file"], "calls": ir["rebuilds"]}, m["rebuilds"]))
+        if ir["functions"] != m["functions"]:
+            diffs.append((f"functions:{m['kind']}", ir["functions"], m["functions"]))
+        if ir["all"] != m["all"]:
+            diffs.append(("__all__", ir["all"], m["all"]))
+    return diffs
